@@ -98,3 +98,17 @@ Theorem C16_family_iff_grammar : forall m p,
   family_of m p = None <-> grammar_of ext_table m p = None.
 Proof. exact family_iff_grammar. Qed.
 Print Assumptions C16_family_iff_grammar.
+
+(* Every registered suffix shares its parser object with a suffix whose comment convention the model lists (a new alias of a known language is covered; an unknown language is not, and this theorem then fails). *)
+Theorem C16_every_parser_object_known : forallb (fun kv => match class_family (snd kv) with Some _ => true | None => false end) ext_table = true.
+Proof. exact every_class_known. Qed.
+Print Assumptions C16_every_parser_object_known.
+
+(* The conventions listed by hand agree with the ones derived per parser object. *)
+Theorem C16_hand_table_consistent :
+  forallb (fun sf => match assoc (fst sf) ext_table with
+                     | None => true
+                     | Some _ => match assoc (fst sf) family_table with Some f => f =? snd sf | None => false end
+                     end) family_hand = true.
+Proof. exact family_hand_consistent. Qed.
+Print Assumptions C16_hand_table_consistent.
